@@ -300,6 +300,7 @@ fn dispatch(db: &mut Option<Db>, line: &str) -> String {
             dbx::cmd_lookup(db.as_ref().unwrap(), &arg(1))
         }
         "cbor" => cbor::cmd_cbor(&parts[1..]),
+        "db" => "DB".to_string(),
         _ => format!("? unknown command {}", cmd),
     }
 }
